@@ -34,7 +34,12 @@ func (p Prop) run(n int) *rp.Fail {
 		if strings.Contains(c, "github.com/uhppoted/uhppote-core/") && (strings.Contains(c, "panic:") || strings.Contains(c, "fatal error:")) {
 			return &rp.Fail{Fingerprint: "cold/" + p.Scenario + "/crash", Msg: "a fresh process crashed inside the library during concurrent first use:\n" + c}
 		}
-		ev.HarnessError("cold-start child of scenario %s died: %s", p.Scenario, c)
+		// a child that did not finish for any other reason (killed, out of time on an overloaded machine) says nothing about
+		// the library: it is counted as not run; only when no child at all finished is that the harness' problem
+		ev.Excluded("cold-start child that did not finish (overloaded machine)", 1)
+		if finished == 0 {
+			ev.HarnessError("no cold-start child of scenario %s finished; last: %s", p.Scenario, c)
+		}
 	}
 	if len(fails) > 0 {
 		f := fails[0]
